@@ -153,23 +153,85 @@ class Model(object):
     def ask(self, requests):
         if not requests:
             return []
-        data = "\n".join(json.dumps(r, ensure_ascii=True) for r in requests) + "\n"
-        proc = subprocess.run([self.exe], input=data.encode("utf-8"), stdout=subprocess.PIPE,
-                              stderr=subprocess.PIPE, timeout=3000)
-        if proc.returncode != 0:
-            raise Infra("driver exited %s: %s" % (proc.returncode, proc.stderr[-500:]))
-        lines = proc.stdout.decode("utf-8").split("\n")
-        if lines and lines[-1] == "":
-            lines.pop()
-        if len(lines) != len(requests):
-            raise Infra("driver answered %d lines for %d requests" % (len(lines), len(requests)))
-        out = []
-        for req, line in zip(requests, lines):
-            ans = json.loads(line)
-            if "err" in ans:
-                raise Infra("driver protocol error %r on %r" % (ans["err"], req))
-            out.append(ans["r"])
-        return out
+        return next(self.ask_stream(iter([requests])))
+
+    def ask_stream(self, groups, timeout=3000):
+        """
+        `groups` yields lists of requests (one list per case); yields the list of answers of each
+        group, in order.  One driver process serves the whole stream; requests are written and answers
+        read as they come, so neither the request text nor the answer text of a whole run is ever held
+        in memory (a thorough tier has millions of lines).
+        """
+        import queue
+        import threading
+        proc = subprocess.Popen([self.exe], stdin=subprocess.PIPE, stdout=subprocess.PIPE,
+                                stderr=subprocess.PIPE)
+        pending = queue.Queue()      # group sizes only; unbounded, so the feeder never waits for the reader
+        feed_error = []
+        stderr_tail = []
+
+        def feed():
+            try:
+                for reqs in groups:
+                    pending.put(len(reqs))
+                    if reqs:
+                        proc.stdin.write(("\n".join(json.dumps(r, ensure_ascii=True) for r in reqs)
+                                          + "\n").encode("utf-8"))
+            except BrokenPipeError:
+                pass
+            except BaseException as exc:          # noqa: an error of the generator is re-raised below
+                feed_error.append(exc)
+            finally:
+                try:
+                    proc.stdin.close()
+                except Exception:
+                    pass
+                pending.put(None)
+
+        def drain():
+            for line in proc.stderr:
+                stderr_tail.append(line)
+                del stderr_tail[:-20]
+
+        killer = threading.Timer(timeout, proc.kill)
+        killer.daemon = True
+        killer.start()
+        feeder = threading.Thread(target=feed, daemon=True)
+        drainer = threading.Thread(target=drain, daemon=True)
+        feeder.start()
+        drainer.start()
+        nline = 0
+        try:
+            while True:
+                count = pending.get()
+                if count is None:
+                    break
+                answers = []
+                for _ in range(count):
+                    line = proc.stdout.readline()
+                    if not line:
+                        proc.wait()
+                        raise Infra("driver ended early (exit %s): %s"
+                                    % (proc.returncode, b"".join(stderr_tail)[-500:]))
+                    nline += 1
+                    ans = json.loads(line.decode("utf-8"))
+                    if "err" in ans:
+                        raise Infra("driver protocol error %r on request line %d" % (ans["err"], nline))
+                    answers.append(ans["r"])
+                yield answers
+            if feed_error:
+                raise feed_error[0]
+            extra = proc.stdout.read()
+            proc.wait()
+            if proc.returncode != 0:
+                raise Infra("driver exited %s: %s" % (proc.returncode, b"".join(stderr_tail)[-500:]))
+            if extra.strip():
+                raise Infra("driver answered more lines than requests")
+        finally:
+            killer.cancel()
+            if proc.poll() is None:
+                proc.kill()
+            proc.wait()
 
 
 # --------------------------------------------------------------------------- impl side
@@ -435,23 +497,22 @@ def _main(check, argv):
     if model_ok:
         try:
             model = Model(check.driver())
-            reqs = []
-            spans = []
-            for case, (obs, _f) in zip(cases, results):
-                r = check.model_requests(case, obs) \
-                    if "harness_exception" not in obs and "timeout" not in obs else []
-                spans.append((len(reqs), len(reqs) + len(r)))
-                reqs.extend(r)
-            answers = model.ask(reqs)
-            for idx, (case, (obs, _f)) in enumerate(zip(cases, results)):
+
+            def request_groups():
+                for case, (obs, _f) in zip(cases, results):
+                    yield check.model_requests(case, obs) \
+                        if "harness_exception" not in obs and "timeout" not in obs else []
+
+            # one driver process; requests are produced, answered and compared case by case
+            for idx, answers in enumerate(model.ask_stream(request_groups())):
+                case, (obs, _f) = cases[idx], results[idx]
                 if "harness_exception" in obs:
                     disagreements.append((idx, ["implementation executor failed: %s %s"
                                                 % (obs["harness_exception"], obs.get("trace", "")[-600:])]))
                     continue
                 if "timeout" in obs:
                     continue
-                lo, hi = spans[idx]
-                d = check.compare(case, obs, answers[lo:hi])
+                d = check.compare(case, obs, answers)
                 if d:
                     disagreements.append((idx, d))
                 else:
